@@ -219,7 +219,7 @@ PROPS["C01"] = {
 }
 PROPS["C02"] = {
     "coq": "theories/Props/C02.v",
-    "theorems": ["C02_block_size_codes", "C02_sample_rate_codes", "C02_number_roundtrip", "C02_number_defined"],
+    "theorems": ["C02_block_size_codes", "C02_sample_rate_codes", "C02_number_roundtrip", "C02_number_defined", "C02_emitted_stream_strict"],
     "streams": "ENC+CNT", "rule": "ENC+CNT",
     "oracle": lambda pid, res, driver: enc_oracle(pid, res, driver),
     "search": lambda pid, res, hb: table_search(pid, res, hb),
